@@ -154,12 +154,14 @@ func (u US) Close() error {
 	return nil
 }
 
+//go:norace
 func checkUntouched(ok bool) {
 	if !ok {
 		Untouched = false
 	}
 }
 
+//go:norace
 func invocations(slot int) int {
 	n := 0
 	for k := range Calls {
@@ -168,11 +170,13 @@ func invocations(slot int) int {
 	return n
 }
 
+//go:norace
 func tick() int {
 	Seq++
 	return Seq
 }
 
+//go:norace
 func recordArgs(in *Inst, args []any) {
 	for _, a := range args {
 		switch x := a.(type) {
@@ -192,6 +196,7 @@ func recordArgs(in *Inst, args []any) {
 	}
 }
 
+//go:norace
 func fault(slot int) int {
 	if slot == FaultSlot && invocations(slot) == FaultNth {
 		return FaultKind
@@ -200,6 +205,7 @@ func fault(slot int) int {
 }
 
 // mk is called by every generated constructor.
+//go:norace
 func mk(b *Base, slot, variant, kind int, args ...any) (err error, isNil bool) {
 	Calls[kind][slot]++
 	if YieldInCtor {
@@ -230,6 +236,7 @@ func mk(b *Base, slot, variant, kind int, args ...any) (err error, isNil bool) {
 	return nil, false
 }
 
+//go:norace
 func mkAux(b *Base, primary *Base) {
 	p := primary.inst
 	in := &Inst{ID: len(Log), Slot: p.Slot, Variant: p.Variant, Kind: p.Kind, Aux: true, Primary: p}
@@ -240,6 +247,7 @@ func mkAux(b *Base, primary *Base) {
 	b.inst = in
 }
 
+//go:norace
 func mkInstance(b *Base, slot int) {
 	in := &Inst{ID: len(Log), Slot: slot, Kind: KindInstance}
 	in.CloseErr = CloseErrMask&(1<<slot) != 0
@@ -260,6 +268,7 @@ type VoidCall struct {
 
 var VoidLog []*VoidCall
 
+//go:norace
 func mkVoid(slot, variant, kind int, args ...any) error {
 	Calls[kind][slot]++
 	if YieldInCtor {
@@ -290,6 +299,7 @@ func mkVoid(slot, variant, kind int, args ...any) error {
 	return nil
 }
 
+//go:norace
 func (b *Base) doClose() error {
 	in := b.inst
 	if in == nil {
@@ -312,6 +322,7 @@ func (b *Base) doClose() error {
 	return nil
 }
 
+//go:norace
 func closeCtx() string {
 	s := ""
 	for _, c := range ActiveCloses {
